@@ -86,6 +86,13 @@ def queries(tier):
         if q.name.startswith(("httpconn-res-", "httpconn-write-full")) and (q.name.endswith("iov2") or "-segs" in q.name and q.name.count("_") <= 2):
             q.group = "~" + q.group
             qs.append(q)
+    # "messages that travel over the same connection arrive in the order they were sent": between the application's send and the connection sits the
+    # protocol's send buffer - back-pressure skeletons of PAIR (connection busy, buffer full, further sends blocked, then the peer reads again)
+    from props import C08
+    for q in C08.queries(tier):
+        if "S(0,1) S(1,1) S(2,1)" in q.defs.get("SKEL", "") and q.defs.get("SKEL", "").startswith("B("):
+            q.group = "~" + q.group + "#c01"
+            qs.append(q)
     # inproc delivers raw messages by inserting the protocol header in front of the body (nni_msg_insert)
     from props import C17
     for q in C17.queries(tier):
